@@ -494,12 +494,16 @@ def c14_subset(w, ev, slot):
     # ---- JSON
     text = t.to_json('sim-subset', creation_date=when)
     w.case('c14.subset', 'parse_table_json', slot, ax=ax)
+    def idsarg():
+        form = (b >> 5) % 4
+        return [list(names), tuple(names), np.array(names),
+                set(names)][form]
     for label, mk in (('parse_table(StringIO, ids)',
                        lambda: io.StringIO(text)),
                       ('parse_table(lines, ids)',
                        lambda: [text[:len(text) // 2], text[len(text) // 2:]])):
         try:
-            got = biom.parse_table(mk(), ids=list(names), axis=AXNAME[ax])
+            got = biom.parse_table(mk(), ids=idsarg(), axis=AXNAME[ax])
         except Exception as e:  # noqa
             w.fail('c14.subset_raised', '%s raised %r' % (label, e))
         else:
@@ -513,6 +517,17 @@ def c14_subset(w, ev, slot):
                 ('compact', json.dumps(doc, separators=(',', ':'))),
                 ('spaced', json.dumps(doc)),
                 ('indent=2', json.dumps(doc, indent=2))]
+    if c % 3 == 0:
+        # the document the command itself writes (it orders the members
+        # differently): subsetting the output of an earlier run that kept
+        # every id
+        try:
+            g0, _ = _subset_table(None, text, AXNAME[ax], list(ref.ids[ax]))
+            variants.append(('output of a previous subset-table run',
+                             ''.join(g0)))
+        except Exception as e:  # noqa
+            w.fail('c14.subset_raised', 'subset-table keeping every id '
+                   'raised %r' % (e,))
     results = []
     for label, jtext in variants:
         w.case('c14.subset', 'subset_table_json', slot, ax=ax, ser=label)
